@@ -145,6 +145,31 @@ def run(ctx):
             lo_, hi_ = float(np.min(np.log(Ts_[:3]))) - 0.5, float(np.log(Ts_[0])) + 0.05
             if not (np.all(np.isfinite(got_[:3])) and np.all((got_[:3] > lo_) & (got_[:3] < hi_)) and np.max(np.abs(np.diff(got_[:5]))) < 1.0):
                 viol(f"{name}/extension/short-table", f"{name}: extension below a table starting at ln T = {np.log(Ts_[0]):.4f} is not finite, continuous and anchored at the first tabulated value: ln T = {got_[:3].tolist()}")
+        # a request on exactly the table's own grid (it "lies inside the table": first requested k == first tabulated k) reproduces every node
+        for name, mk2 in {"FromArray": lambda: tm.FromArray(Planck15, k=ks_.copy(), T=Ts_.copy()), "FromFile": lambda: tm.FromFile(Planck15, fname=fname2)}.items():
+            for lo_i in (0, 1):
+                own = mk2().lnt(np.log(ks_[lo_i:]))
+                ntab += 1
+                if not np.allclose(own, np.log(Ts_[lo_i:]), rtol=1e-8, atol=1e-10):
+                    nb_ = int(np.sum(~np.isclose(own, np.log(Ts_[lo_i:]), rtol=1e-8, atol=1e-10)))
+                    viol(f"{name}/nodes/own-grid", f"{name}: evaluated on the table's own grid (from node {lo_i}), {nb_} nodes are not reproduced (max dev of ln T {np.max(np.abs(own - np.log(Ts_[lo_i:]))):.3g}; table starts at T={Ts_[0]:.3f})",
+                         {"model": name, "request": "np.log(k_table[%d:])" % lo_i})
+                    break
+        # ... also for a table with a low-k feature (a few-per-cent turn-up on the largest scales followed by the plateau, as some Boltzmann
+        # outputs have): inside the table nothing is cut or patched
+        ku_ = np.exp(np.arange(np.log(1e-7), np.log(1e2), 0.1))
+        Tu_ = 0.97 * np.exp(tm.BBKS(Planck15).lnt(np.log(ku_))) * (1 + 0.03 * np.exp(-ku_ / 5e-7))
+        fname3 = os.path.join(tmpdir, "table_turnup.dat")
+        np.savetxt(fname3, np.column_stack([ku_, Tu_]))
+        for name, mk3 in {"FromArray": lambda: tm.FromArray(Planck15, k=ku_.copy(), T=Tu_.copy()), "FromFile": lambda: tm.FromFile(Planck15, fname=fname3)}.items():
+            for lo_i in (0, 2):
+                own = mk3().lnt(np.log(ku_[lo_i:]))
+                ntab += 1
+                if not np.allclose(own, np.log(Tu_[lo_i:]), rtol=1e-8, atol=1e-10):
+                    nb_ = int(np.sum(~np.isclose(own, np.log(Tu_[lo_i:]), rtol=1e-8, atol=1e-10)))
+                    viol(f"{name}/nodes/own-grid", f"{name}: evaluated on the table's own grid (from node {lo_i}; table with a 3% low-k turn-up), {nb_} nodes are not reproduced (max dev of ln T {np.max(np.abs(own - np.log(Tu_[lo_i:]))):.3g})",
+                         {"model": name, "request": "np.log(k_table[%d:])" % lo_i, "table": "0.97*BBKS*(1+0.03*exp(-k/5e-7)) on exp(arange(ln 1e-7, ln 1e2, 0.1))"})
+                    break
         # CAMB-format files: the total-matter transfer function is the seventh column, whatever the number of columns (>= 7)
         for ncol in (7, 9, 13):
             cols = [ks_] + [Ts_ * (0.5 + 0.1 * j_) for j_ in range(1, ncol)]
